@@ -39,7 +39,9 @@ def handlerOk (caught : List Char) (h : List Sk) : Bool :=
   caught == "Exception".toList && h == [.removeIfExists .tmp .tmp, .reraise]
 
 /-- the temporary name is the target followed by a non-empty suffix that contains the pid and the thread ident, and
-nothing the model does not know -/
+nothing the model does not know.  The pid must be the LIVE one (`.pid`: `os.getpid()` evaluated in the call); a value
+cached at import (`.cachedPid`) is the same in a process and the children it forks, so it does not make the name
+"unique per concurrent writer". -/
 def tmpPartsOk (parts : List TmpPart) : Bool :=
   (match parts with
    | .path :: .lit s :: _ => !s.isEmpty
